@@ -216,14 +216,18 @@ fn gen_scalar(rng: &mut Rng, out: &mut Vec<String>, n: usize) {
 }
 
 /// diagonally dominant nonlinear system: f_i = d_i x_i + sum_j a_ij sin(x_j) (or x_j^2 / 8) - c_i with known root
-fn dd_system<T: Ev + Re>(rng: &mut Rng, n: usize, root: &[T]) -> (VFn<T>, Vec<E<T>>) {
+fn dd_system<T: Ev + Re>(rng: &mut Rng, n: usize, root: &[T]) -> (VFn<T>, Vec<E<T>>) { let d = *rng.pick(&[20usize, 50, 80]); dd_system_k(rng, n, root, d) }
+fn dd_system_k<T: Ev + Re>(rng: &mut Rng, n: usize, root: &[T], dens: usize) -> (VFn<T>, Vec<E<T>>) {
     let mut comps = Vec::new();
-    let neg_diag = rng.chance(50); let dens = *rng.pick(&[20usize, 50, 80]); let upper_only = rng.chance(30);
+    let neg_diag = rng.chance(50); let upper_only = rng.chance(30);
     for i in 0..n {
         // diagonal of either sign; the coupling is dense, sparse or one-sided (exact zeros below / above the diagonal
         // of the Jacobian, so that the pivot search of the linear solve meets zero candidates)
         let d = (4.0 + rng.below(3) as f64) * if neg_diag && rng.chance(70) { -1.0 } else { 1.0 };
         let mut e: E<T> = mul(k(d), v(i));
+        // weakly coupled systems get a quadratic term in their OWN variable, so that one Newton step from a distant
+        // component does not land on the root (error ~ step^2 / (2d))
+        if dens <= 10 { e = add(e, mul(k(if rng.chance(50) { 0.5 } else { -0.5 }), mul(v(i), v(i)))); }
         for j in 0..n { if j != i && rng.chance(dens) && !(upper_only && j < i) { let a = rng.range(-2, 2) as f64 / 4.0; if a != 0.0 { let term = if rng.chance(50) { Expr::Sin(Box::new(v(j))) } else { mul(v(j), v(j)) }; e = add(e, mul(k(a), term)); } } }
         let c = e.eval(root);
         comps.push(sub(e, Expr::Const(c)));
@@ -243,6 +247,30 @@ fn gen_sys(rng: &mut Rng, out: &mut Vec<String>, count: usize) {
         let cplx = rng.chance(30);
         let mode_exact = rng.chance(50);
         let emit = |tag: &str, guess: String, root: String, f: String, jac: String, fam: &str| format!("newton_v {} {} {} {} {} {} {} {} {}", tag, guess, tol.wr(), delta.wr(), max_iter, fam, root, f, if mode_exact { format!("exact {}", jac) } else { "fd".into() });
+        // guesses whose components are at very DIFFERENT distances from the root (exact, 1e-9, 1e-6, 0.15, in a random
+        // arrangement) on weakly coupled systems: the residual components then differ by many orders of magnitude and the
+        // largest can sit anywhere (first, middle, last): a convergence test that does not look at the largest component
+        // reports success far from the root
+        if n >= 3 && rng.chance(35) {
+            let mags = [0.0f64, 1e-9, 1e-6, 0.15];
+            let mut pm: Vec<f64> = (0..n).map(|_| *rng.pick(&mags)).collect();
+            let big = rng.below(n); pm[big] = 0.15; if big + 1 < n { pm[n - 1] = *rng.pick(&[1e-9f64, 1e-6]); }
+            let dens = *rng.pick(&[0usize, 0, 10]);
+            if !cplx {
+                let root: Vec<f64> = (0..n).map(|_| rng.range(-4, 4) as f64 / 4.0).collect();
+                let (f, jac) = dd_system_k::<f64>(rng, n, &root, dens);
+                let guess: Vec<f64> = (0..n).map(|i| root[i] + pm[i] * if rng.chance(50) { 1.0 } else { -1.0 }).collect();
+                let js = { let mut s = format!("{}", jac.len()); for e in &jac { s.push(' '); s.push_str(&e.show()); } s };
+                out.push(emit("f", wr_vec(&guess), wr_vec(&root), f.show(), js, "basin-dd"));
+            } else {
+                let root: Vec<Cmplx> = (0..n).map(|_| Cmplx::new(rng.range(-4, 4) as f64 / 4.0, rng.range(-4, 4) as f64 / 4.0)).collect();
+                let (f, jac) = dd_system_k::<Cmplx>(rng, n, &root, dens);
+                let guess: Vec<Cmplx> = (0..n).map(|i| root[i] + if rng.chance(50) { Cmplx::new(pm[i], 0.0) } else { Cmplx::new(0.0, -pm[i]) }).collect();
+                let js = { let mut s = format!("{}", jac.len()); for e in &jac { s.push(' '); s.push_str(&e.show()); } s };
+                out.push(emit("c", wr_vec(&guess), wr_vec(&root), f.show(), js, "basin-dd"));
+            }
+            continue;
+        }
         if !cplx {
             let root: Vec<f64> = (0..n).map(|_| rng.range(-4, 4) as f64 / 4.0).collect();
             let (f, jac) = dd_system::<f64>(rng, n, &root);
